@@ -7,6 +7,7 @@ import (
 	"fmt"
 	"net/url"
 	"os"
+	"path"
 	"reflect"
 	"regexp"
 	"sort"
@@ -25,6 +26,9 @@ import (
 type Case struct {
 	Layout *fsgen.Layout `json:"layout"`
 	Entry  string        `json:"entry"` // uri | datawithpath | data (single-file layouts only)
+	// Prelude: when non-empty, the text of a twin of the root document with one dangling reference,
+	// which the same Loader loads (and fails on) first
+	Prelude string `json:"prelude,omitempty"`
 	// Break: when non-empty, one reference has been redirected to a missing / wrong-kind target
 	Break string `json:"break,omitempty"`
 }
@@ -47,7 +51,25 @@ func load(c Case) (*openapi3.T, *memfs.FS, error) {
 	root := c.Layout.Root
 	var doc *openapi3.T
 	var err error
+	if c.Prelude != "" {
+		// the loader has a history: it first loaded, and failed on, a twin of the root document
+		// (next to it) in which one reference dangles. What it left pending must not colour the load
+		// that is judged.
+		twin := path.Join(path.Dir(root), "twin.json")
+		fs.Files[twin] = []byte(c.Prelude)
+		switch c.Entry {
+		case "file":
+			_, _ = ld.LoadFromFile(twin)
+		case "datawithpath":
+			_, _ = ld.LoadFromDataWithPath(fs.Files[twin], &url.URL{Path: twin})
+		default:
+			_, _ = ld.LoadFromURI(&url.URL{Path: twin})
+		}
+		delete(fs.Files, twin)
+	}
 	switch c.Entry {
+	case "file":
+		doc, err = ld.LoadFromFile(root)
 	case "data":
 		doc, err = ld.LoadFromData(fs.Files[root])
 	case "datawithpath":
@@ -289,7 +311,28 @@ func gen(t *rapid.T) Case {
 		lay = fsgen.GenerateGraph(t, cfg.Absolute)
 	}
 	c := Case{Layout: lay}
-	c.Entry = rapid.SampledFrom([]string{"uri", "datawithpath"}).Draw(t, "entry")
+	c.Entry = rapid.SampledFrom([]string{"uri", "datawithpath", "file"}).Draw(t, "entry")
+	if rapid.IntRange(0, 3).Draw(t, "prelude") == 0 {
+		if sites := reachableRefs(lay); len(sites) > 0 {
+			// break one reference of the root document itself (the twin is a copy of the root)
+			var rootSites []fsgen.RefSite
+			for _, s := range sites {
+				if s.File == lay.Root {
+					rootSites = append(rootSites, s)
+				}
+			}
+			if len(rootSites) > 0 {
+				s := rootSites[rapid.IntRange(0, len(rootSites)-1).Draw(t, "presite")]
+				if nr := breakRef(s.Ref, rapid.SampledFrom([]string{"missing-name", "missing-file", "missing-pointer"}).Draw(t, "prebreak")); nr != "" {
+					var v any
+					_ = json.Unmarshal([]byte(lay.Files[lay.Root]), &v)
+					v = setAt(v, append(append([]string{}, s.Ptr...), "$ref"), nr)
+					b, _ := json.Marshal(v)
+					c.Prelude = string(b)
+				}
+			}
+		}
+	}
 	if cfg.AvoidUnwalked && os.Getenv("C02_DEBUG") == "" && rapid.IntRange(0, 5).Draw(t, "break") == 0 {
 		sites := reachableRefs(lay)
 		if len(sites) > 0 {
